@@ -624,24 +624,23 @@ def closeLit (mode : LexMode) (pos : Pos) (acc : List WordPart) : List WordPart 
 
 /-- Reads one word (`wordParts` + `advanceLitNone` + the `sglQuote` case of `wordPart`). -/
 def lexWord : Bytes → Pos → LexMode → List WordPart → WordLex
-  | [], pos, mode, acc =>
-    match mode with
-    | .sgl _ _ => .unclosedQuote
-    | _ => .done (closeLit mode pos acc).reverse pos []
-  | b :: rest, pos, mode, acc =>
-    match mode with
-    | .sgl left a =>
-      if b == 39 then lexWord rest (pos.adv b) .idle (.sgl left pos a.reverse :: acc)
-      else if isSglSafe b then lexWord rest (pos.adv b) (.sgl left (b :: a)) acc
-      else .outside
-    | _ =>
-      if isSafe b then
-        match mode with
-        | .lit st a => lexWord rest (pos.adv b) (.lit st (b :: a)) acc
-        | _ => lexWord rest (pos.adv b) (.lit pos [b]) acc
-      else if b == 39 then lexWord rest (pos.adv b) (.sgl pos []) (closeLit mode pos acc)
-      else if isDelim b then .done (closeLit mode pos acc).reverse pos (b :: rest)
-      else .outside
+  | [], pos, .idle, acc => .done acc.reverse pos []
+  | [], pos, .lit st a, acc => .done (WordPart.lit st pos a.reverse :: acc).reverse pos []
+  | [], _, .sgl _ _, _ => .unclosedQuote
+  | b :: rest, pos, .sgl left a, acc =>
+    if b == 39 then lexWord rest (pos.adv b) .idle (.sgl left pos a.reverse :: acc)
+    else if isSglSafe b then lexWord rest (pos.adv b) (.sgl left (b :: a)) acc
+    else .outside
+  | b :: rest, pos, .lit st a, acc =>
+    if isSafe b then lexWord rest (pos.adv b) (.lit st (b :: a)) acc
+    else if b == 39 then lexWord rest (pos.adv b) (.sgl pos []) (.lit st pos a.reverse :: acc)
+    else if isDelim b then .done (WordPart.lit st pos a.reverse :: acc).reverse pos (b :: rest)
+    else .outside
+  | b :: rest, pos, .idle, acc =>
+    if isSafe b then lexWord rest (pos.adv b) (.lit pos [b]) acc
+    else if b == 39 then lexWord rest (pos.adv b) (.sgl pos []) acc
+    else if isDelim b then .done acc.reverse pos (b :: rest)
+    else .outside
 
 /-- The blank-skipping loop at the start of `next()`; `skipNl` is `p.tok == _Newl` (consecutive
     newline tokens are merged). -/
@@ -906,71 +905,69 @@ def andOrF : Nat → Bool → Bool → Stmt → PS → Except ParseErr (Stmt × 
 def gotStmtPipeF : Nat → Bool → Pos → Bool → Bool → PS → Except ParseErr (Option Stmt × PS)
   | 0, _, _, _, _, _ => .error .outOfFuel
   | fuel + 1, inSub, pos, neg, binCmd, ps =>
-    let first : Except ParseErr (Option Stmt × PS) :=
-      match ps.tok with
-      | .word w lit =>
-        match lit with
-        | some v =>
-          if v == [123] then
-            -- p.block(s)
-            let lb := ps.pos
-            let ps := ps.next
-            if ps.tok == .semi then .error .outside -- `{;` : an error or an empty list by variant
-            else
-              match stmtsF fuel inSub true true ps [] with
-              | .error e => .error e
-              | .ok (ss, ps) =>
-                if ss.isEmpty then
-                  (match ps.tok with
-                   | .outside => .error .outside
-                   | _ => .error .outside) -- `{ }` : an error or an empty list by variant
-                else
-                  match ps.tok with
-                  | .word _ (some v') =>
-                    if v' == [125] then .ok (some (mkStmt pos neg (.block lb ps.pos (Stmts.ofList ss))), ps.next)
-                    else .error (.syntax "reached EOF without matching `{` with `}`")
-                  | .outside => .error .outside
-                  | _ => .error (.syntax "reached EOF without matching `{` with `}`")
-          else if v == [125] then .error (.syntax "`}` can only be used to close a block")
-          else if v == [33] then
-            if !neg then .error (.syntax "`!` can only be used in full statements") else .error .outside
-          else if isOutsideKeyword v then .error .outside
-          else
-            match callArgs (fuel + 1) inSub ps.next [w] with
-            | .error e => .error e
-            | .ok (args, ps) => .ok (some (mkStmt pos neg (.call args)), ps)
-        | none =>
-          match callArgs (fuel + 1) inSub ps.next [w] with
-          | .error e => .error e
-          | .ok (args, ps) => .ok (some (mkStmt pos neg (.call args)), ps)
-      | .lparen =>
-        -- p.subshell(s)
-        let lp := ps.pos
-        let ps := ps.next
-        if ps.tok == .semi then .error .outside
-        else
-          match stmtsF fuel true false true ps [] with
-          | .error e => .error e
-          | .ok (ss, ps) =>
-            if ss.isEmpty then
-              (match ps.tok with
-               | .outside => .error .outside
-               | _ => .error .outside) -- `( )` : an error or an empty list by variant
-            else
-              match ps.tok with
-              | .rparen => .ok (some (mkStmt pos neg (.subshell lp ps.pos (Stmts.ofList ss))), ps.next)
-              | .outside => .error .outside
-              | _ => .error (.syntax "reached EOF without matching `(` with `)`")
-      | .outside => .error .outside
-      | .unclosedQuote => .error (.syntax "reached EOF without closing quote '")
-      | _ => .ok (none, ps)
-    match first with
+    match firstCmdF fuel inSub pos neg ps with
     | .error e => .error e
     | .ok (none, ps) => .ok (none, ps)
     | .ok (some s, ps) =>
       match pipeF fuel inSub binCmd s ps with
       | .error e => .error e
       | .ok (s, ps) => .ok (some s, ps)
+
+/-- the `switch p.tok` of `gotStmtPipe`: one simple or compound command -/
+def firstCmdF : Nat → Bool → Pos → Bool → PS → Except ParseErr (Option Stmt × PS)
+  | 0, _, _, _, _ => .error .outOfFuel
+  | fuel + 1, inSub, pos, neg, ps =>
+    match ps.tok with
+    | .word w lit =>
+      match lit with
+      | some v =>
+        if v == [123] then
+          -- p.block(s)
+          let lb := ps.pos
+          let ps := ps.next
+          if ps.tok == .semi then .error .outside -- `{;` : an error or an empty list by variant
+          else
+            match stmtsF fuel inSub true true ps [] with
+            | .error e => .error e
+            | .ok (ss, ps) =>
+              if ss.isEmpty then .error .outside -- `{ }` : an error or an empty list by variant
+              else
+                match ps.tok with
+                | .word _ (some v') =>
+                  if v' == [125] then .ok (some (mkStmt pos neg (.block lb ps.pos (Stmts.ofList ss))), ps.next)
+                  else .error (.syntax "reached EOF without matching `{` with `}`")
+                | .outside => .error .outside
+                | _ => .error (.syntax "reached EOF without matching `{` with `}`")
+        else if v == [125] then .error (.syntax "`}` can only be used to close a block")
+        else if v == [33] then
+          if !neg then .error (.syntax "`!` can only be used in full statements") else .error .outside
+        else if isOutsideKeyword v then .error .outside
+        else
+          match callArgs (fuel + 1) inSub ps.next [w] with
+          | .error e => .error e
+          | .ok (args, ps) => .ok (some (mkStmt pos neg (.call args)), ps)
+      | none =>
+        match callArgs (fuel + 1) inSub ps.next [w] with
+        | .error e => .error e
+        | .ok (args, ps) => .ok (some (mkStmt pos neg (.call args)), ps)
+    | .lparen =>
+      -- p.subshell(s)
+      let lp := ps.pos
+      let ps := ps.next
+      if ps.tok == .semi then .error .outside
+      else
+        match stmtsF fuel true false true ps [] with
+        | .error e => .error e
+        | .ok (ss, ps) =>
+          if ss.isEmpty then .error .outside -- `( )` : an error or an empty list by variant
+          else
+            match ps.tok with
+            | .rparen => .ok (some (mkStmt pos neg (.subshell lp ps.pos (Stmts.ofList ss))), ps.next)
+            | .outside => .error .outside
+            | _ => .error (.syntax "reached EOF without matching `(` with `)`")
+    | .outside => .error .outside
+    | .unclosedQuote => .error (.syntax "reached EOF without closing quote '")
+    | _ => .ok (none, ps)
 
 /-- the `for p.tok == or` loop of `gotStmtPipe` -/
 def pipeF : Nat → Bool → Bool → Stmt → PS → Except ParseErr (Stmt × PS)
@@ -1006,7 +1003,7 @@ def parseToksF (fuel : Nat) (toks : List TokPos) : Except ParseErr File :=
 
 /-- fuel that is never used up: every level of the recursion consumes a token
     (theorem `fuel_sufficient`) -/
-def parseFuelFor (toks : List TokPos) : Nat := 4 * toks.length + 8
+def parseFuelFor (toks : List TokPos) : Nat := 6 * toks.length + 8
 
 def parseToks (toks : List TokPos) : Except ParseErr File := parseToksF (parseFuelFor toks) toks
 
